@@ -16,6 +16,7 @@ import (
 	yaml "gopkg.in/yaml.v2"
 	"pgregory.net/rapid"
 	"verifharness/drv"
+	"verifharness/ref"
 )
 
 // C18 — DHCP leases survive restart; a damaged lease file cannot crash the server.
@@ -259,21 +260,28 @@ func c18Restart(tb drv.TB, rec *drv.Rec, sub string, c c18Case) {
 		}
 	}
 	if len(want) > 0 {
+		// an identity without a binding asks for a bound address: preferably one that shares its hardware address with a
+		// bound identity (another client identifier on the same station - only the lease table tells them apart on a
+		// fresh session), else any other
 		free := -1
-		for k := range dClients {
-			used := false
-			for _, b := range want {
-				if ident[b.CID] == k || dClients[ident[b.CID]].mac == dClients[k].mac {
-					used = true
+		for pass := 0; pass < 2 && free < 0; pass++ {
+			for k := range dClients {
+				bound, sameMAC := false, false
+				for _, b := range want {
+					if ident[b.CID] == k {
+						bound = true
+					} else if dClients[ident[b.CID]].mac == dClients[k].mac {
+						sameMAC = true
+					}
+				}
+				if !bound && (sameMAC || pass == 1) {
+					free = k
+					break
 				}
 			}
-			if !used {
-				free = k
-				break
-			}
 		}
-		if free >= 0 {
-			probe = append(probe, dOp{K: "discover", C: free, Req: "other", XID: 3})
+		if free >= 0 { // asked first, while the new session has not seen any of the stations yet (only the lease table protects the address), and once more after the renewals
+			probe = append([]dOp{{K: "discover", C: free, Req: "other", XID: 2}}, append(probe, dOp{K: "discover", C: free, Req: "other", XID: 3})...)
 		}
 	}
 	var res dhcpResult
@@ -491,5 +499,91 @@ func TestC18(t *testing.T) {
 	drv.Prop(t, rec, "faults", 1, 10, func(t *rapid.T) c18Case {
 		return c18Case{Hist: genAckOnly(t), Seed: rapid.Uint64().Draw(t, "seed")}
 	}, func(tb drv.TB, c c18Case) { c18Faults(tb, rec, "faults", c) })
+	// a lease table the size of a real LAN: 110 .. 240 acknowledged clients, then a restart from the file
+	type manyLeases struct {
+		N   int `json:"n"`
+		CID int `json:"cid"` // 0: keyed by chaddr, 1: type-1 identifiers, 2: 20-byte identifiers
+	}
+	drv.Prop(t, rec, "many-leases", 6, 60, func(t *rapid.T) manyLeases {
+		return manyLeases{N: rapid.SampledFrom([]int{110, 130, 180, 240}).Draw(t, "n"), CID: rapid.IntRange(0, 2).Draw(t, "cid")}
+	}, func(tb drv.TB, c manyLeases) {
+		rec.Eval()
+		drv.Begin("C18", "many-leases", 'J', mustJSON(c), 120*time.Second)
+		defer drv.End()
+		dir, _ := os.MkdirTemp("", "c18-")
+		defer os.RemoveAll(dir)
+		cfg := dhcpCfg{Net: 1, Mode: 1, File: filepath.Join(dir, "leases.yaml")}
+		env, err := newDHCPEnv(cfg)
+		if err != nil {
+			rec.Violation(tb, "many-leases", "c18-new-failed", c, "handler construction failed: %v", err)
+			return
+		}
+		n := dNets[cfg.Net]
+		var want []c18Binding
+		for i := 0; i < c.N; i++ {
+			mac := ref.MAC{0x00, 0x0d, 0x0d, 0x00, byte(i >> 8), byte(i)}
+			var cid []byte
+			switch c.CID {
+			case 1:
+				cid = append([]byte{1}, mac[:]...)
+			case 2:
+				cid = append([]byte{255, 0, 0, 0, 9, 0, 2, 0, 0, 0xab, 0x11, byte(i >> 8), byte(i), 1, 2, 3, 4, 5, 6}, byte(i))
+			}
+			send := func(mt byte, opts ...ref.DHCPOpt) (yi netip.Addr, typ byte) {
+				m := ref.DHCPMsg{Op: 1, HType: 1, HLen: 6, CHAddr: mac, XID: [4]byte{0xe0, byte(i >> 8), byte(i), 7}}
+				m.Options = append([]ref.DHCPOpt{{Code: 53, Data: []byte{mt}}}, opts...)
+				if cid != nil {
+					m.Options = append(m.Options, ref.DHCPOpt{Code: 61, Data: cid})
+				}
+				env.conn.Take()
+				env.deliver(ref.Eth(ref.MAC{0xff, 0xff, 0xff, 0xff, 0xff, 0xff}, mac, 0x0800, ref.IP4(ref.IP4Hdr{TotalLen: -1, TTL: 64, Proto: 17, Checksum: -1, Dst: [4]byte{255, 255, 255, 255}}, ref.UDP(68, 67, -1, 0, m.Encode(true)))))
+				for _, r := range serverReplies(env.conn.Take()) {
+					if r.msg.CHAddr == mac {
+						return netip.AddrFrom4(r.msg.YIAddr), r.msg.MsgType()
+					}
+				}
+				return netip.Addr{}, 0
+			}
+			off, typ := send(1)
+			if typ != 2 {
+				break // pool exhausted (host and router take two addresses of the /24): what was acknowledged so far is the table
+			}
+			ack, typ := send(3, ref.DHCPOpt{Code: 54, Data: n.host.AsSlice()}, ref.DHCPOpt{Code: 50, Data: off.AsSlice()})
+			if typ != 5 || ack != off {
+				rec.Violation(tb, "many-leases", "c18-many-handshake", c, "client %d: OFFER %v then reply type %d for %v", i, off, typ, ack)
+				env.close()
+				return
+			}
+			id := cid
+			if id == nil {
+				id = mac[:]
+			}
+			want = append(want, c18Binding{CID: fmt.Sprintf("%x", id), MAC: fmt.Sprintf("%x", mac[:]), IP: ack.String()})
+		}
+		env.close()
+		sort.Slice(want, func(i, j int) bool { return want[i].CID < want[j].CID })
+		env2, loaded, _, p, sig, st, err := c18Load(cfg, cfg.File)
+		if p != nil || err != nil {
+			rec.Violation(tb, "many-leases", "c18-restart-"+sig, c, "New on the lease file of %d clients: %v %v\n%s", len(want), p, err, st)
+			return
+		}
+		defer env2.close()
+		if fmt.Sprint(loaded) != fmt.Sprint(want) {
+			missing := 0
+			have := map[string]bool{}
+			for _, b := range loaded {
+				have[b.CID+b.IP] = true
+			}
+			for _, b := range want {
+				if !have[b.CID+b.IP] {
+					missing++
+				}
+			}
+			rec.Violation(tb, "many-leases", "c18-restart-bindings", c, "after restart the handler holds %d of the %d acknowledged bindings (%d missing)", len(loaded), len(want), missing)
+			return
+		}
+		rec.Class(fmt.Sprintf("many-leases: %d bindings restored", len(want)))
+		rec.NonTrivial(drv.HashJSON(c), func() interface{} { return map[string]interface{}{"clients": c.N, "bindings": len(want)} })
+	})
 	_ = strings.TrimSpace
 }
